@@ -634,6 +634,8 @@ fn table_field(font: &FontRef, name: &str) -> Result<f64, String> {
         "vhea.lineGap" => font.vhea().map_err(|x| e("vhea", x))?.line_gap().to_i16() as f64,
         "post.underlinePosition" => font.post().map_err(|x| e("post", x))?.underline_position().to_i16() as f64,
         "post.underlineThickness" => font.post().map_err(|x| e("post", x))?.underline_thickness().to_i16() as f64,
+        "maxp.maxPoints" => font.maxp().map_err(|x| e("maxp", x))?.max_points().ok_or("maxp 0.5")? as f64,
+        "maxp.maxCompositePoints" => font.maxp().map_err(|x| e("maxp", x))?.max_composite_points().ok_or("maxp 0.5")? as f64,
         "maxp.numGlyphs" => font.maxp().map_err(|x| e("maxp", x))?.num_glyphs() as f64,
         "gasp.rangeMaxPPEM0" | "gasp.behavior0" => {
             let gasp = font.gasp().map_err(|x| e("gasp", x))?;
@@ -1297,6 +1299,39 @@ fn enumerate(tier: vcore::Tier) -> Vec<Case> {
         }
     }
 
+    // ---- point counts: every coordinate fits, the COUNT (maxp uint16, endPtsOfContours uint16) may not
+    {
+        let squares = |n: usize| -> Vec<Contour> {
+            (0..n / 4)
+                .map(|k| {
+                    let (x, y) = ((k % 200) as f64 * 100.0, (k / 200) as f64 * 100.0);
+                    shapes::rect(x, y, x + 50.0, y + 50.0)
+                })
+                .collect()
+        };
+        let mut simple = vec![65532usize, 65536, 70000];
+        if thorough {
+            simple.extend([65528, 65540, 131072]);
+        }
+        for n in simple {
+            let mut d = base_design(false, false);
+            each_layer(&mut d, None, "d", |l| l.contours = squares(n));
+            g.push("pointCount.simple", n.to_string(), n as f64, U16, true, n <= 65535, "static", d, &[],
+                Expect::Field { name: "maxp.maxPoints".into(), default: n as f64, m1: None });
+        }
+        let mut comp = vec![32000usize, 32768, 33000];
+        if thorough {
+            comp.extend([32764, 32772, 40000]);
+        }
+        for n in comp {
+            let mut d = base_design(false, false);
+            each_layer(&mut d, None, "a", |l| l.contours = squares(n));
+            each_layer(&mut d, None, "c", |l| l.components = vec![Component::at("a", 0.0, 0.0), Component::at("a", 0.0, 20000.0)]);
+            g.push("pointCount.composite", format!("2x{n}"), 2.0 * n as f64, U16, true, 2 * n <= 65535, "static", d, &[],
+                Expect::Field { name: "maxp.maxCompositePoints".into(), default: 2.0 * n as f64, m1: None });
+        }
+    }
+
     // ---- variable base: every master value fits, the DELTA may not
     {
         let base = base_design(true, false);
@@ -1365,7 +1400,9 @@ fn enumerate(tier: vcore::Tier) -> Vec<Case> {
 
     // ---- glyph count (thorough): generated on the fly, not embedded
     if thorough {
-        for n in [65534u32, 65535, 65536, 65537] {
+        // 65279 = .notdef + 65278 custom names is the most a version-2 post table can index
+        // (glyphNameIndex is a uint16 and custom names start at 258)
+        for n in [65279u32, 65280, 65535, 65536, 65537] {
             g.cases.push(Case {
                 field: "glyphCount".into(),
                 value: n.to_string(),
@@ -1374,7 +1411,7 @@ fn enumerate(tier: vcore::Tier) -> Vec<Case> {
                 hi: 65535.0,
                 bits: 16,
                 meta: true,
-                fits: n <= 65535,
+                fits: n <= 65279,
                 base: "static".into(),
                 variable: false,
                 flags: vec![],
@@ -2006,16 +2043,27 @@ fn main() {
     }
     rep.set("enumerated", n_small as u64);
     rep.set("mean_case_wall_ms", (t0.elapsed().as_secs_f64() * 1000.0 * threads as f64 / all.len().max(1) as f64).round());
-    for c in big {
-        if t0.elapsed().as_secs_f64() > budget_s {
-            exhaustive = false;
-            rep.assume(&format!("time cap reached before glyphCount={} could run", c.value));
-            continue;
+    // the big sources: a few at a time (each build holds the whole glyph set in memory)
+    if !big.is_empty() {
+        let started = t0.elapsed().as_secs_f64();
+        let rs = vcore::par_for(big.len(), 3, |i| {
+            if t0.elapsed().as_secs_f64() > budget_s {
+                return None;
+            }
+            let t = std::time::Instant::now();
+            let r = run_case(&big[i]);
+            eprintln!("[C19] glyphCount={} took {:.1}s: {} / {}", big[i].value, t.elapsed().as_secs_f64(), r.opt, r.chk);
+            Some(r)
+        });
+        for (c, r) in big.into_iter().zip(rs) {
+            match r {
+                Some(r) => all.push((c, r)),
+                None => {
+                    exhaustive = false;
+                    rep.assume(&format!("time cap reached before glyphCount={} could run (big cases started at {started:.0} s)", c.value));
+                }
+            }
         }
-        let t = std::time::Instant::now();
-        let r = run_case(&c);
-        eprintln!("[C19] glyphCount={} took {:.1}s: {} / {}", c.value, t.elapsed().as_secs_f64(), r.opt, r.chk);
-        all.push((c, r));
     }
 
     // ---- evidence
